@@ -163,7 +163,21 @@ func c11Session(seed int64, patience time.Duration) *c11Result {
 		res.delFaults = int(delFail.Load())
 		res.rep["failed_mailbox_deletions"] = res.delFaults
 	}
+	// In a third of the sessions the first one or two stream closes of the
+	// parties report an error (the relay end of the stream was gone first):
+	// the connection is closed all the same and the next one must come.
+	var closeFail atomic.Int64
+	if rng.Intn(3) == 0 {
+		closeFail.Store(int64(1 + rng.Intn(2)))
+		res.rep["failed_stream_closes"] = closeFail.Load()
+	}
 	relay.Fault = func(op sim.RelayOp) sim.RelayAction {
+		if op.Kind == "closesend" || op.Kind == "closerecv" {
+			if closeFail.Add(-1) >= 0 {
+				return sim.RelayAction{Fail: breakErr}
+			}
+			return sim.RelayAction{}
+		}
 		if failing.Load() {
 			return sim.RelayAction{Fail: breakErr}
 		}
@@ -401,13 +415,32 @@ func c11Session(seed int64, patience time.Duration) *c11Result {
 			// SYN a malformed packet arrives in its mailbox: that
 			// connection attempt fails inside Accept, and the listener
 			// must go on accepting
+			// (in half of the cases the dialer is in back-off meanwhile,
+			// so that the malformed packet is the first thing the
+			// listener's next handshake reads)
+			hold := rng.Intn(2) == 0
+			acc0 := m.Accepts.Load()
+			if hold {
+				m.HoldDials.Store(true)
+			}
 			if cur != nil {
 				_ = cur.Close()
 				cur = nil
 				res.reconnects++
 			}
-			time.Sleep(time.Duration(100+rng.Intn(400)) * time.Millisecond)
+			if hold {
+				for w := 0; w < 300 && m.Accepts.Load() == acc0; w++ {
+					time.Sleep(10 * time.Millisecond)
+				}
+				time.Sleep(50 * time.Millisecond)
+			} else {
+				time.Sleep(time.Duration(100+rng.Intn(400)) * time.Millisecond)
+			}
 			relay.Inject(sidHex(mailbox.GetSID(keySID, false)), []byte{0xEE})
+			if hold {
+				time.Sleep(200 * time.Millisecond)
+				m.HoldDials.Store(false)
+			}
 		case "relay-restart":
 			// the relay loses its in-memory mailboxes
 			relay.Restart()
